@@ -39,6 +39,8 @@ enum COp {
     /// advances the clock by 1 ns, then calls invalidate_all
     InvalidateAll,
     Sync,
+    /// advances the (shared) mock clock
+    Advance { ns: u32 },
 }
 
 impl COp {
@@ -50,6 +52,7 @@ impl COp {
             COp::Invalidate { k } => format!("invalidate {}", k),
             COp::InvalidateAll => "invalidate_all".into(),
             COp::Sync => "sync".into(),
+            COp::Advance { ns } => format!("advance {}", ns),
         }
     }
     fn parse(s: &str) -> Option<COp> {
@@ -63,6 +66,7 @@ impl COp {
             "invalidate" => COp::Invalidate { k: num()? },
             "invalidate_all" => COp::InvalidateAll,
             "sync" => COp::Sync,
+            "advance" => COp::Advance { ns: num()? },
             _ => return None,
         })
     }
@@ -130,18 +134,28 @@ fn parse_prog(text: &str) -> Option<(Prog, String, String, u64)> {
     Some((Prog { cfg: cfg?, threads }, mode, strategy, sseed))
 }
 
+const HOUR: u64 = 3_600_000_000_000;
+
+fn short_expiry(cfg: &Config) -> bool {
+    cfg.ttl.map(|t| t < HOUR).unwrap_or(false) || cfg.tti.map(|t| t < HOUR).unwrap_or(false)
+}
+
 fn gen_cfg(rng: &mut Rng, keys: u32) -> Config {
-    let cap = match rng.below(6) {
+    let cap = match rng.below(8) {
         0 => None,
+        6 | 7 => Some(64),
         n => Some(n.min(4)),
     };
+    // mostly: expiry configured but an hour away (it must not interfere, only its code paths
+    // run); sometimes a few ticks away, with clock advances in the program
+    let short = rng.chance(1, 4);
+    let dur = |rng: &mut Rng| if short { rng.range(2, 6) } else { HOUR };
     Config {
         kind: Kind::Sync,
         cap,
         weigher: rng.chance(1, 3),
-        // expiry is configured but far away: it must not interfere, only its code paths run
-        ttl: if rng.chance(1, 3) { Some(3_600_000_000_000) } else { None },
-        tti: if rng.chance(1, 3) { Some(3_600_000_000_000) } else { None },
+        ttl: if rng.chance(1, 3) { Some(dur(rng)) } else { None },
+        tti: if rng.chance(1, 3) { Some(dur(rng)) } else { None },
         hasher: match rng.below(4) {
             0 => HashMode::Identity,
             1 => HashMode::Collide2,
@@ -164,13 +178,14 @@ fn gen_prog(rng: &mut Rng) -> Prog {
         for _ in 0..n {
             let k = rng.below(keys as u64) as u32;
             let w = if cfg.weigher { *rng.pick(&[0u32, 1, 1, 2, 3]) } else { 1 };
-            ops.push(match rng.below(20) {
+            ops.push(match rng.below(if short_expiry(&cfg) { 23 } else { 20 }) {
                 0..=7 => COp::Insert { k, w },
                 8..=13 => COp::Get { k },
                 14 => COp::Contains { k },
                 15 | 16 => COp::Invalidate { k },
                 17 => COp::InvalidateAll,
-                _ => COp::Sync,
+                18 | 19 => COp::Sync,
+                _ => COp::Advance { ns: rng.range(1, 3) as u32 },
             });
         }
         threads.push(ops);
@@ -237,6 +252,7 @@ fn exec_op(sh: &Shared, tid: usize, counter: &mut u64, op: COp, log: &mut Vec<Ev
             sh.cache.invalidate_all();
         }
         COp::Sync => sh.cache.sync(),
+        COp::Advance { ns } => sh.clock.advance(Duration::from_nanos(ns as u64)),
     }
     ev.ret = stamp();
     ev.clock_ret = sh.now();
@@ -253,7 +269,7 @@ struct CheckStats {
     gets_judged: u64,
 }
 
-fn check_history(evs: &[Ev], final_gets: &[(u32, Option<u64>)], final_stamp: u64) -> (Vec<Violation>, CheckStats) {
+fn check_history(evs: &[Ev], final_gets: &[(u32, Option<u64>)], final_stamp: u64, ttl: Option<u64>) -> (Vec<Violation>, CheckStats) {
     let mut out = Vec::new();
     let mut st = CheckStats { overlapping_reads: 0, gets_judged: 0 };
     let mut by_key: BTreeMap<u32, Vec<&Ev>> = BTreeMap::new();
@@ -331,6 +347,18 @@ fn check_history(evs: &[Ev], final_gets: &[(u32, Option<u64>)], final_stamp: u64
                     Some(w) => {
                         if w.call > e.ret {
                             out.push(Violation { props: vec!["C02"], sig: "concurrent:future-value".into(), detail: format!("{} of key {} returned {} before its insert began", who, k, v), op_index: 0 });
+                        }
+                        if let (Some(ttl), true) = (ttl, w.done) {
+                            // the write was stamped no later than the clock at its return, the get read
+                            // the clock no earlier than at its call
+                            if e.clock_call >= w.clock_ret.saturating_add(ttl) {
+                                out.push(Violation {
+                                    props: vec!["C05", "C02"],
+                                    sig: "concurrent:ttl-expired-value".into(),
+                                    detail: format!("{} of key {} at clock {} returned {} written at clock <= {} with time_to_live {}", who, k, e.clock_call, v, w.clock_ret, ttl),
+                                    op_index: 0,
+                                });
+                            }
                         }
                         if let Some(by) = superseded(w, *begin, *k) {
                             let mut props = vec!["C02"];
@@ -433,8 +461,16 @@ fn quiescence_checks(sh: &Shared, cfg: &Config, keys: u32, stats: &mut mmv::moni
         }
     }
     // held but invisible entries (no expiry can fire here: deadlines are an hour away)
+    let now_q = sh.now();
     for e in &s.entries {
         if !sh.cache.contains_key(&TK::probe(e.key)) {
+            let expired = cfg.ttl.map(|t| e.lm.map(|x| x.saturating_add(t) <= now_q).unwrap_or(false)).unwrap_or(false)
+                || cfg.tti.map(|t| e.la.map(|x| x.saturating_add(t) <= now_q).unwrap_or(false)).unwrap_or(false);
+            if expired {
+                // passed its deadline: invisible by right (whether maintenance released it is C11's
+                // sequential business)
+                continue;
+            }
             match fs3_predicate(&s, e.key, cfg.ttl.is_some()) {
                 Some(sig) => out.push(Violation { props: vec!["C10", "C11"], sig: sig.into(), detail: format!("after join + sync: key {} is held and counted but invisible (invalidate_all)", e.key), op_index: 0 }),
                 _ => out.push(Violation {
@@ -671,8 +707,20 @@ fn run_program(prog: &Prog, mode: &str, strategy: Strategy, sseed: u64, stats: &
     // wall-clock watchdog: inconclusive, never a verdict (the logical detectors come first)
     let t0 = Instant::now();
     let mut panicked = false;
+    let mut idle = mmv::report::IdleWatch::new(6);
     loop {
         if handles.iter().all(|h| h.is_finished()) {
+            break;
+        }
+        if t0.elapsed() > Duration::from_secs(2) && idle.idle() {
+            // unfinished threads and no CPU progress at all: everybody is blocked for good
+            out.violations.push(Violation {
+                props: vec!["C09"],
+                sig: "deadlock:all-threads-blocked-without-cpu-progress".into(),
+                detail: "the worker threads have not finished and the process consumed no CPU time for 6 s: every thread is blocked inside a call (outside the instrumented switch points) and nobody is left to unblock them".into(),
+                op_index: 0,
+            });
+            out.hung = true;
             break;
         }
         if let Some(b) = &baton {
@@ -740,7 +788,57 @@ fn run_program(prog: &Prog, mode: &str, strategy: Strategy, sseed: u64, stats: &
     for k in 0..keys {
         finals.push((k, sh.cache.get(&TK::probe(k)).map(|v| v.vid)));
     }
-    let (hv, cs) = check_history(&evs, &finals, fstamp);
+    // C03 / C07 / C16, concurrent form: when the last operation on a key is unambiguous (every
+    // other operation on it, and every invalidate_all, returned before it began) and it is an insert
+    // whose value cannot have expired and cannot have been evicted for capacity, then the value
+    // must be there after the threads have stopped, for get and for iteration alike.
+    {
+        let cfg = &prog.cfg;
+        let max_w: u64 = evs.iter().filter_map(|e| if let COp::Insert { w, .. } = e.op { Some(if cfg.weigher { w as u64 } else { 1 }) } else { None }).max().unwrap_or(1);
+        let roomy = cfg.cap.map(|c| c >= keys as u64 * max_w.max(1)).unwrap_or(true);
+        let now_q = sh.now();
+        let iter_keys: HashSet<u32> = sh.cache.iter().map(|e| e.key().id).collect();
+        for k in 0..keys {
+            let mut on_key: Vec<&Ev> = evs.iter().filter(|e| e.done && (e.op.key() == Some(k) && !matches!(e.op, COp::Get { .. } | COp::Contains { .. }) || e.op == COp::InvalidateAll)).collect();
+            on_key.sort_by_key(|e| e.call);
+            let last = match on_key.last() {
+                Some(l) => *l,
+                None => continue,
+            };
+            let unambiguous = on_key.iter().all(|e| std::ptr::eq(*e, last) || e.ret < last.call);
+            if !unambiguous || !roomy {
+                continue;
+            }
+            if let COp::Insert { w, .. } = last.op {
+                let weight_ok = !cfg.weigher || cfg.cap.map(|c| w as u64 <= c).unwrap_or(true);
+                let fresh = cfg.ttl.map(|t| now_q < last.clock_call.saturating_add(t)).unwrap_or(true) && cfg.tti.map(|t| now_q < last.clock_call.saturating_add(t)).unwrap_or(true);
+                if !weight_ok || !fresh {
+                    continue;
+                }
+                stats.inc("quiescent_must_live_keys_judged");
+                let got = finals.iter().find(|f| f.0 == k).and_then(|f| f.1);
+                if got != Some(last.vid) {
+                    out.violations.push(Violation {
+                        props: vec!["C03", "C07", "C02"],
+                        sig: "concurrent:live-value-lost".into(),
+                        detail: format!(
+                            "after all threads stopped, key {} must hold {} (its last, unambiguous operation; inserted at clock >= {}, now {}, no capacity pressure possible) but get returned {:?}",
+                            k, last.vid, last.clock_call, now_q, got
+                        ),
+                        op_index: 0,
+                    });
+                } else if !iter_keys.contains(&k) {
+                    out.violations.push(Violation {
+                        props: vec!["C16", "C03"],
+                        sig: "concurrent:live-value-missing-from-iteration".into(),
+                        detail: format!("after all threads stopped, get returns key {} but iteration does not yield it", k),
+                        op_index: 0,
+                    });
+                }
+            }
+        }
+    }
+    let (hv, cs) = check_history(&evs, &finals, fstamp, prog.cfg.ttl);
     out.overlapping_reads = cs.overlapping_reads;
     stats.add("gets_judged", cs.gets_judged);
     out.violations.extend(hv);
